@@ -2,6 +2,7 @@ import Driver.Proto
 import Driver.Ops.Kern
 import Driver.Ops.Lattice
 import Driver.Ops.Stereo
+import Driver.Ops.ColorKey
 import Driver.Ops.NDArray
 import Driver.Ops.XMap
 import Driver.Ops.Grp
@@ -23,6 +24,7 @@ def handlers : List (String × (List String → String)) := [
   ("lat", Lat.handle),
   ("stereo", St.handleStereo),
   ("hist", St.handleHist),
+  ("ckey", CKey.handle),
   ("nd", ND.handle),
   ("uniq", Uniq.handle),
   ("xmap", XMapOp.handle),
